@@ -34,6 +34,10 @@ def behaviours():
     for code in STD:
         for data in DATA:
             yield dict(kind='perr', params=[('a', 0)], code=code, message='std', data=data, cls='std')
+    # an application error class with a constructor of its own (keyword-only / differently named arguments)
+    for data in DATA:
+        if not (isinstance(data, str) and data == ABSENT):
+            yield dict(kind='perr', params=[('a', 0)], code=7003, message='custom constructor', data=data, cls='custom-ctor')
     for e in EXCS:
         yield dict(kind='boom', params=[('a', 0)], exc=e)
 
@@ -48,9 +52,25 @@ def std_make_error(beh):
 _orig_make_error = methods.make_error
 
 
+_CUSTOM = []
+
+
+def custom_ctor_error(detail):
+    import pjrpc.common.exceptions as exc
+    if not _CUSTOM:
+        class AccountError(exc.JsonRpcError):
+            # (not registered for its code - no class level `code` - so that reading the response back builds the base class)
+            def __init__(self, *, detail):
+                super().__init__(7003, 'custom constructor', detail)
+        _CUSTOM.append(AccountError)
+    return _CUSTOM[0](detail=detail)
+
+
 def _make_error(beh):
     if beh.get('cls') == 'std':
         return std_make_error(beh)
+    if beh.get('cls') == 'custom-ctor':
+        return custom_ctor_error(beh['data'])
     return _orig_make_error(beh)
 
 
@@ -62,7 +82,7 @@ PLACES = ['call', 'notif', 'b0', 'b1', 'b2', 'b-notif']
 def gen_failures(ctx):
     for beh in behaviours():
         for place in PLACES:
-            for disp in ('sync', 'async', 'async-plain', 'async-wrapped', 'async-seq'):
+            for disp in ('sync', 'async', 'async-plain', 'async-wrapped', 'async-seq', 'sync-mw', 'async-mw'):
                 yield dict(part='fail', disp=disp, beh=beh, place=place)
 
 
